@@ -367,6 +367,8 @@ pub struct XRoles {
     pub ss_override: Option<[u8; 32]>,
     /// skip the ss token completely (a forger that cannot compute it)
     pub skip_ss: bool,
+    /// if set, the `es` shared secret is this value instead of DH(e_priv, rs_es)
+    pub es_override: Option<[u8; 32]>,
 }
 
 impl XRoles {
@@ -382,6 +384,7 @@ impl XRoles {
             rs_ss: *r_pub,
             ss_override: None,
             skip_ss: false,
+            es_override: None,
         }
     }
 }
@@ -400,7 +403,10 @@ pub fn noise_x_write(roles: &XRoles, payload: &[u8]) -> Option<XMsg> {
     msg.extend_from_slice(&roles.e_pub);
     s.mix_hash(&roles.e_pub);
     // es
-    let es = x25519(&roles.e_priv, &roles.rs_es)?;
+    let es = match roles.es_override {
+        Some(v) => v,
+        None => x25519(&roles.e_priv, &roles.rs_es)?,
+    };
     s.mix_key(&es);
     // s
     let c = s.encrypt_and_hash(&roles.s_pub);
